@@ -161,9 +161,10 @@ def _run(v, tier, rng, work):
                      "stdout": so[-300:]}
                 v.violation("%s comments change the result" % enc, w)
                 break
-    # ---- failing runs never leave a partial image: INT 0x80 panics after the destination was truncated
+    # ---- failing runs never leave a partial image: a label name that breaks pass 2 (template expansion) makes gosk
+    # exit with a failing status after the destination was already truncated
     psrc = os.path.join(work, "panic.nas")
-    open(psrc, "w").write("\tMOV\tAX,1\n\tINT\t0x80\n\tDB\t1,2,3\n")
+    open(psrc, "w").write("\tMOV\tAX,1\n\tJMP\t$lab\n\tDB\t1,2,3\n$lab:\n\tDB\t4\n")
     dst = os.path.join(work, "panic.bin")
     open(dst, "wb").write(GARBAGE)
     rc, so, se = cli([psrc, dst], work)
@@ -172,5 +173,5 @@ def _run(v, tier, rng, work):
     if rc == 0 or after not in (GARBAGE, b""):
         v.violation("a failing run left something other than the old or an empty file", {"exit": rc, "len": len(after)})
     v.cov.update({"evaluations": evals, "distinct_nontrivial": len(vectors) + len(progs),
-                  "rule": "real CLI runs: all argument vectors of length 0..4 over {existing, missing, directory, unparsable} sources x {new, pre-existing longer, uncreatable, directory} destinations; random programs (flat and WCOFF) through the CLI into fresh and pre-filled destinations vs the in-process API; the same programs with generated Shift_JIS (trail 0x5c/0x7c, half-width katakana) and UTF-8 comments; a panicking source; non-trivial = distinct argument vectors + programs",
+                  "rule": "real CLI runs: all argument vectors of length 0..4 over {existing, missing, directory, unparsable} sources x {new, pre-existing longer, uncreatable, directory} destinations; random programs (flat and WCOFF) through the CLI into fresh and pre-filled destinations vs the in-process API; the same programs with generated Shift_JIS (trail 0x5c/0x7c, half-width katakana) and UTF-8 comments; a source failing in pass 2; non-trivial = distinct argument vectors + programs",
                   "samples": [vectors[5], A.p_program(progs[0])], "argument_vectors": len(vectors), "programs": len(progs)})
